@@ -201,6 +201,24 @@ def Ep.previous (e : Ep) (w : Int) : Option Ep :=
     let delta := wdDiff w cur
     some ⟨Dur.sub e.dur (if Dur.eqb delta Dur.ZERO then Dur.unitMulI64 Gen.NANOSECONDS_PER_DAY 7 else delta), e.ts⟩
 
+/-- `Epoch::with_hms_strict(h, 0, 0)` on the duration (src/epoch/with_funcs.rs): for a negative duration
+    the day that contains it starts at the whole days at or below it -/
+def withHmsStrict (d : Dur) (h : Int) : Res Dur :=
+  match Dur.decompose d with
+  | .ok (sg, days, hh, mm, ss, ms, us, ns) =>
+    if sg < 0 then
+      match Dur.compose 0 days 0 0 0 0 0 0, Dur.compose 0 1 0 0 0 0 0 0, Dur.compose 0 0 h 0 0 0 0 0 with
+      | .ok w, .ok one, .ok t =>
+        (match Dur.neg w with
+         | .ok whole =>
+           let dayStart := if hh = 0 ∧ mm = 0 ∧ ss = 0 ∧ ms = 0 ∧ us = 0 ∧ ns = 0 then whole else Dur.sub whole one
+           .ok (Dur.add dayStart t)
+         | .err => .err | .panic => .panic)
+      | _, _, _ => .panic
+    else Dur.compose sg days h 0 0 0 0 0
+  | .err => .err
+  | .panic => .panic
+
 /-! ### GNSS week / time of week, nanosecond counters (src/epoch/initializers.rs, ops.rs) -/
 
 /-- `Epoch::from_time_of_week` (week : u32, nanoseconds : u64) -/
